@@ -194,7 +194,7 @@ def run_history_prop(ctx):
         if os.path.exists(dig) and payload is None:
             digests[b] = open(dig).read().splitlines()
     if tier == "thorough" and not res["violations"] and prop not in ("C13", "C16", "C06"):
-        part, viols, note = fuzz_campaign(ctx, "hist", prop, runs_per_proc=25000)
+        part, viols, note = fuzz_campaign(ctx, "hist", prop, runs_per_proc=3000)
         if part:
             res["partials"].append(part)
         res["violations"] += viols
